@@ -31,6 +31,10 @@ pub struct Dict {
     // insertion order; keys unique under key equality; first spelling of a key is kept
     pub entries: Vec<(V, V)>,
     pub default: Option<Box<V>>,
+    /// two equal keys with different spellings (1 and 1.0) have met in this dictionary: which
+    /// spelling the entry keeps is not determined by the map model, so wherever key spellings
+    /// would flow out as values (`keys`, `items`, iteration) the model declines
+    pub amb: bool,
 }
 
 #[derive(Debug)]
@@ -82,6 +86,8 @@ pub enum StreamV {
     Map(Box<StreamV>, Rc<FuncV>),
     Filter(Box<StreamV>, Rc<FuncV>),
     Iterate(Box<V>, Rc<FuncV>),
+    // lazy zip: ends with its shortest member; elements are lists, or f applied to the members' elements
+    Zip(Vec<StreamV>, Option<Rc<FuncV>>),
 }
 
 pub struct Scope {
@@ -100,17 +106,28 @@ impl Dict {
         Dict {
             entries: Vec::new(),
             default: None,
+            amb: false,
         }
     }
     pub fn find(&self, k: &V) -> Option<usize> {
         self.entries.iter().position(|(kk, _)| key_eq(kk, k))
+    }
+    /// `find` on a path that writes: notes when the spelling of `k` differs from the stored one
+    pub fn find_w(&mut self, k: &V) -> Option<usize> {
+        let j = self.find(k);
+        if let Some(j) = j {
+            if format!("{:?}", self.entries[j].0) != format!("{:?}", k) {
+                self.amb = true;
+            }
+        }
+        j
     }
     pub fn get(&self, k: &V) -> Option<&V> {
         self.find(k).map(|i| &self.entries[i].1)
     }
     /// std `insert`: keeps the old key spelling, replaces the value
     pub fn insert(&mut self, k: V, v: V) {
-        match self.find(&k) {
+        match self.find_w(&k) {
             Some(i) => self.entries[i].1 = v,
             None => self.entries.push((k, v)),
         }
@@ -274,7 +291,7 @@ pub fn truthy(v: &V) -> Option<bool> {
             StreamV::Fin(xs) => !xs.is_empty(),
             StreamV::Iota(_) | StreamV::Repeat(_) | StreamV::Iterate(..) => true,
             StreamV::Cycle(..) => true,
-            StreamV::Map(..) | StreamV::Filter(..) => return None,
+            StreamV::Map(..) | StreamV::Filter(..) | StreamV::Zip(..) => return None,
         },
     })
 }
@@ -287,6 +304,73 @@ fn canon_f64(f: f64, out: &mut String) {
         out.push_str("NaN");
     } else {
         out.push_str(&format!("{:016x}", f.to_bits()));
+    }
+}
+
+fn canon_real_class(r: &Real, out: &mut String) {
+    match r {
+        Real::NaN => out.push_str("NaN"),
+        Real::PosInf => out.push_str("+inf"),
+        Real::NegInf => out.push_str("-inf"),
+        Real::Exact(q) => {
+            out.push_str(&q.numer().to_string());
+            out.push('/');
+            out.push_str(&q.denom().to_string());
+        }
+    }
+}
+
+/// canonical text of a dictionary key *up to key equality*: numbers by exact value whatever their
+/// level or representation (1, 1.0, 2/2, 1+0i; 0.0 and -0.0; every NaN), containers element-wise.
+/// Which of several equal spellings a dictionary keeps is not part of the map model.
+pub fn canon_key(v: &V, names: &[String], out: &mut String) {
+    match v {
+        x if is_num(x) => {
+            out.push('n');
+            if num_is_nan(x) {
+                out.push_str("NaN");
+                return;
+            }
+            let (re, im) = num_parts(x).unwrap();
+            canon_real_class(&re, out);
+            if im != Real::Exact(BigRational::zero()) {
+                out.push('|');
+                canon_real_class(&im, out);
+            }
+        }
+        V::Vector(xs) | V::List(xs) => {
+            out.push_str(if matches!(v, V::Vector(_)) { "v[" } else { "[" });
+            for (i, x) in xs.iter().enumerate() {
+                if i > 0 {
+                    out.push(',');
+                }
+                canon_key(x, names, out);
+            }
+            out.push(']');
+        }
+        V::Dict(d) => {
+            // dictionaries compare (and hash) by their entries, defaults ignored
+            let mut items: Vec<(String, String)> = Vec::new();
+            for (k, v) in d.entries.iter() {
+                let mut ks = String::new();
+                canon_key(k, names, &mut ks);
+                let mut vs = String::new();
+                canon_key(v, names, &mut vs);
+                items.push((ks, vs));
+            }
+            items.sort();
+            out.push('{');
+            for (i, (k, v)) in items.iter().enumerate() {
+                if i > 0 {
+                    out.push(',');
+                }
+                out.push_str(k);
+                out.push(':');
+                out.push_str(v);
+            }
+            out.push('}');
+        }
+        other => canon_into(other, names, out),
     }
 }
 
@@ -351,7 +435,7 @@ pub fn canon_with(v: &V, names: &[String], out: &mut String, sc: StreamCanon) {
             let mut items: Vec<(String, String)> = Vec::new();
             for (k, v) in d.entries.iter() {
                 let mut ks = String::new();
-                canon_with(k, names, &mut ks, sc);
+                canon_key(k, names, &mut ks);
                 let mut vs = String::new();
                 canon_with(v, names, &mut vs, sc);
                 items.push((ks, vs));
